@@ -50,9 +50,45 @@ def odd_tag(rng, ei):
     return rng.choice(["<%s>" % name, "</%s>" % name, "<%s a=b>t</%s>" % (name, name), "</%s >" % name])
 
 
+# encoding index -> characters whose trail byte is an ASCII capital in that encoding (byte-wise case folding of a
+# tag name would corrupt them)
+TRAIL_AZ = {22: "アィ", 0: "丁七丈三", 4: "丄丅丆", 3: "丄丅丆", 2: "갂갃갅"}
+
+
+def name_case(rng):
+    """an element whose name carries such a character, closed by its own end tag, under the tag-name handler set (6)"""
+    ei = rng.choice(list(TRAIL_AZ))
+    ch = rng.choice(TRAIL_AZ[ei])
+    name = rng.choice(["x", "Ab", "q-"]) + ch + rng.choice(["", "Z", "-y", ch])
+    doc = rng.choice(["", "t", "<p>"]) + "<%s%s>%s</%s%s>" % (name, rng.choice(["", " a=b"]), rng.choice(["", "u", "<b>v</b>"]), name,
+                                                              rng.choice(["", " ", "\n"])) + rng.choice(["", "w"])
+    k = rng.choice([0, 1, 2, 3])
+    cuts = sorted(rng.randrange(0, 1001) for _ in range(k))
+    return f"{ei} {doc.encode('utf-8').hex()} {','.join(map(str, cuts)) or '-'} 6"
+
+
+def feff_case(rng):
+    """U+FEFF inside text under a text handler, with a write starting right at it (UTF-8 / gb18030)"""
+    ei = rng.choice([23, 23, 3])
+    pre, post = rng.choice(["<p>foo", "<p>", "x", "<div>é"]), rng.choice(["bar</p>", "</p>", "y", "\ufeffz"])
+    doc = pre + "\ufeff" + post
+    enc = "utf-8" if ei == 23 else "gb18030"
+    total = len(doc.encode(enc))
+    at = len(pre.encode(enc)) * 1000 // total  # per-mille cut just before U+FEFF (the harness floors)
+    cuts = sorted({at, min(1000, at + 1)} | ({rng.randrange(0, 1001)} if rng.random() < 0.5 else set()))
+    return f"{ei} {doc.encode('utf-8').hex()} {','.join(map(str, cuts))} {rng.choice([1, 2, 3, 4])}"
+
+
 def gen(rng, n, tier, pid):
     out = []
     for _ in range(n):
+        r0 = rng.random()
+        if r0 < 0.04:
+            out.append(name_case(rng))
+            continue
+        if r0 < 0.08:
+            out.append(feff_case(rng))
+            continue
         ei = rng.randrange(36)
         parts = []
         for _ in range(rng.randrange(1, 8)):
